@@ -1,7 +1,7 @@
 (* Dispatch table of the extracted model executable: one command per modelled function.
    Model modules are required, not imported: every reference below is qualified. *)
 From FV Require Import Base.Prelude.
-From FV Require Model.ScriptBlocks Model.MathFuncs gen.MathTable Cpp.IR Cpp.Exec Model.KindModel Model.Arith Model.LocalDataset Model.WordSubst Model.CppTypesModel.
+From FV Require Model.ScriptBlocks Model.MathFuncs gen.MathTable Cpp.IR Cpp.Exec Model.KindModel Model.Arith Model.LocalDataset Model.WordSubst Model.CppTypesModel Model.ExecState.
 
 Definition dispatch (cmd : string) (arg : sexp) : sexp :=
   if String.eqb cmd "c15.gen" then ScriptBlocks.run_gen arg
@@ -26,4 +26,6 @@ Definition dispatch (cmd : string) (arg : sexp) : sexp :=
   else if String.eqb cmd "c10.lookup" then CppTypesModel.run_lookup arg
   else if String.eqb cmd "c10.enum" then CppTypesModel.run_enum arg
   else if String.eqb cmd "c10.translate" then CppTypesModel.run_translate arg
+  else if String.eqb cmd "c12.audit" then MathFuncs.audit MathTable.math_env MathTable.documented
+  else if String.eqb cmd "c07.history" then ExecState.run_history arg
   else s_tag "unknown-command" [SAtom cmd].
